@@ -259,6 +259,37 @@ func init() {
 		if p.LockHook != nil {
 			p.LockHook(fr, args[0].(*Value), fn.Name())
 		}
+		// Requests run nested at scheduling points of one another (never truly in parallel): a nested request that
+		// needs a lock its enclosing request holds would wait for it, so that schedule does not exist - the path ends.
+		mu := args[0].(*Value)
+		if p.locks == nil {
+			p.locks = map[*Value]*lockState{}
+		}
+		st := p.locks[mu]
+		if st == nil {
+			st = &lockState{}
+			p.locks[mu] = st
+		}
+		switch fn.Name() {
+		case "Lock":
+			if st.w > 0 || st.r > 0 {
+				panic(pathEnd{"schedule blocked: lock held by the enclosing request"})
+			}
+			st.w++
+		case "RLock":
+			if st.w > 0 {
+				panic(pathEnd{"schedule blocked: lock held by the enclosing request"})
+			}
+			st.r++
+		case "Unlock":
+			if st.w > 0 {
+				st.w--
+			}
+		case "RUnlock":
+			if st.r > 0 {
+				st.r--
+			}
+		}
 		return nil
 	}, "(*sync.Mutex).Lock", "(*sync.Mutex).Unlock", "(*sync.RWMutex).Lock", "(*sync.RWMutex).Unlock", "(*sync.RWMutex).RLock", "(*sync.RWMutex).RUnlock")
 	reg(func(p *Path, fr *frame, fn *ssa.Function, args []Value) Value { return sym.True }, "(*sync.Mutex).TryLock", "(*sync.RWMutex).TryLock")
